@@ -3,7 +3,7 @@
 Proof:   lean/CprocVerif/Props/C12.lean over Model/PP.lean (transliteration of pp.c: define, undef,
          macroequal, the context stack, expand, expandfunc, stringize, peekparen, next, directive)
          and Spec/MacroRef.lean (6.10.3 written from the standard as Prosser's hide-set algorithm).
-Tie:     K-A  harness/scan_h.c (`pp`/`ppnl`: the real next() stream, one forked child per input,
+Tie:     K-A  harness/pp_h.c (= scan_h.c + CPU/memory limits in the child; `pp`/`ppnl`: the real next() stream, one forked child per input,
               ASan+UBSan) vs the model driver drv_c12 vs the reference, on generated macro sets
               inside free token sequences and inside valid C programs;
          ok   on the code's own output: it equals the reference (token kinds and spellings, or the
@@ -672,9 +672,7 @@ def run_real(X, texts, mode, plain=False):
     """the harness forks one child per input; a child that does not terminate (a broken hide flag makes
     expansion endless) is ended by its CPU limit and reported as a death of the preprocessor"""
     lines = ["%s %s" % (mode, hx(t)) for t in texts]
-    limit = "ulimit -t 10; ulimit -v 3000000; " if plain else "ulimit -t 20; "
-    cmd = ["/bin/sh", "-c", limit + 'exec "$0"', X.harness_plain if plain else X.harness]
-    out = lexgen.run_sharded(cmd, lines, env=ASAN_ENV)
+    out = lexgen.run_sharded([X.harness_plain if plain else X.harness], lines, env=ASAN_ENV)
     return [parse_real(l) for l in out]
 
 
@@ -832,6 +830,15 @@ def examine1(X, texts, label, expect=None, asan=None):
         if "dirInArgs" in s.notes or "dirInArgs" in m.notes:
             X.ninputs["undefined-6.10.3p11(skipped)"] = X.ninputs.get("undefined-6.10.3p11(skipped)", 0) + 1
             continue
+        if "nestUnspec" in s.notes and r.crash is None and rn.crash is None:
+            X.ninputs["unspecified-6.10.3.4p4(model vs code only)"] = \
+                X.ninputs.get("unspecified-6.10.3.4p4(model vs code only)", 0) + 1
+            if not (same_km(r, m) and same_km(rn, mn)):
+                ck.violation({"kind": "correspondence", "input": t, "input_hex": hx(bs[i]), "set": label,
+                              "impl": show(X, r.toks), "model": show(X, m.toks),
+                              "what": "pp.c and Model/PP.lean disagree on a unit whose result 6.10.3.4p4 leaves "
+                                      "unspecified", "theorem": "CprocVerif.C12.* are about Model/PP.lean"}, nofail=True)
+            continue
         if len(ck.violations) >= 5:
             continue
         for e in m.notes:
@@ -860,7 +867,7 @@ def examine1(X, texts, label, expect=None, asan=None):
                     if keep_balanced and not defs_balanced(c):
                         return False
                     rr, mm, ss = one(X, c)
-                    if ss.err == "fuel" or mm.err == "fuel" or "dirInArgs" in ss.notes:
+                    if ss.err == "fuel" or mm.err == "fuel" or ss.notes & {"dirInArgs", "nestUnspec"}:
                         return False
                     w = agrees_with_ref(X, rr, ss)
                     return w is not None and (classify(X, c, rr, mm, ss) if same_km(rr, mm) else None) == fid
@@ -1102,7 +1109,7 @@ class Hist(dict):
 def run(ck):
     quick = ck.quick
     ck.cov["rule"] = (
-        "K-A three-way per generated unit: real next() stream of pp.c (harness/scan_h.c, all of /repo linked, one "
+        "K-A three-way per generated unit: real next() stream of pp.c (harness/pp_h.c, all of /repo linked, one "
         "forked child per input, ASan+UBSan; modes pp and ppnl) vs Model/PP.lean (kind, spelling, space flag, "
         "diagnostic class) vs Spec/MacroRef.lean (kind, spelling; class of diagnostic).  Units: macro sets of 1..12 "
         "macros (object-like, function-like with 0..4 parameters, variadic, '#', mutual and self reference, nested "
@@ -1131,10 +1138,10 @@ def run(ck):
     if not ck.proofs_ok:
         ck.notes.append("Props.C12 does not build; searching for a failing input")
     try:
-        X.harness = ck.build_harness("scan_h.c", common.REPO_UNITS)
-        X.harness_plain = ck.build_harness("scan_h.c", common.REPO_UNITS, sanitize=False, name="scan_h_plain")
+        X.harness = ck.build_harness("pp_h.c", common.REPO_UNITS)
+        X.harness_plain = ck.build_harness("pp_h.c", common.REPO_UNITS, sanitize=False, name="pp_h_plain")
     except CompileError as e:
-        ck.harness_broken("scan_h.c", e)
+        ck.harness_broken("pp_h.c", e)
         return
     X.cproc = ck.build_cproc_qbe()
     rng = ck.rng
